@@ -214,6 +214,8 @@ impl<'a> VisitMut for Marker<'a> {
             {
                 let all: Vec<(String, String)> = self.spec.before_call.iter().chain(self.spec.after_call.iter()).cloned().collect();
                 let top: Option<&mut Expr> = match &mut st { Stmt::Expr(e, _) => Some(e), Stmt::Local(l) => l.init.as_mut().map(|i| &mut *i.expr), _ => None };
+                // the scrutinee of a `match` is the first thing such a statement evaluates
+                let top = top.map(|e| if let Expr::Match(mm) = e { &mut *mm.expr } else { e });
                 if let Some(e) = top {
                     let matches_top = callee_key(e).map(|(k, _)| all.iter().any(|(p, _)| pat_matches(p, &k, e).is_some())).unwrap_or(false);
                     let mentions_args = |t: &str| { let b = t.as_bytes(); (0..b.len().saturating_sub(1)).any(|i| b[i] == b'$' && b[i + 1].is_ascii_digit()) };
@@ -222,7 +224,15 @@ impl<'a> VisitMut for Marker<'a> {
                         let args: Option<&mut syn::punctuated::Punctuated<Expr, syn::Token![,]>> = match e { Expr::MethodCall(mc) => Some(&mut mc.args), Expr::Call(c) => Some(&mut c.args), _ => None };
                         if let Some(args) = args {
                             for a in args.iter_mut() {
-                                if !spec_safe(a) && !matches!(a, Expr::Reference(_)) {
+                                if let Expr::Reference(r) = a {
+                                    // `&CALL(..)`: the temporary gets a name, the call takes `&name`
+                                    if r.mutability.is_none() && !spec_safe(&r.expr) {
+                                        let id = quote::format_ident!("__h{}", self.hoist_n); self.hoist_n += 1;
+                                        let inner = (*r.expr).clone();
+                                        out.push(parse_quote!(let #id = #inner;));
+                                        *r.expr = parse_quote!(#id);
+                                    }
+                                } else if !spec_safe(a) {
                                     let id = quote::format_ident!("__h{}", self.hoist_n); self.hoist_n += 1;
                                     let inner = a.clone();
                                     out.push(parse_quote!(let #id = #inner;));
@@ -283,6 +293,14 @@ impl<'a> VisitMut for Marker<'a> {
         if let Some((_, el)) = &mut i.else_branch { if let Expr::Block(b) = &mut **el { if let Some(p) = self.probe() { b.block.stmts.insert(0, p); } } }
     }
     fn visit_arm_mut(&mut self, a: &mut syn::Arm) {
+        // rule B: an arm body that is a bare expression containing a hint anchor becomes a block `{ EXPR }` so that the
+        // hint can be placed next to it (purely syntactic)
+        if !matches!(&*a.body, Expr::Block(_)) {
+            let all: Vec<(String, String)> = self.spec.before_call.iter().chain(self.spec.after_call.iter()).cloned().collect();
+            let mut f = Finder { pats: &all, found: vec![] };
+            syn::visit::Visit::visit_expr(&mut f, &a.body);
+            if !f.found.is_empty() { let b = (*a.body).clone(); *a.body = parse_quote!({ #b }); }
+        }
         visit_mut::visit_arm_mut(self, a);
         if let Expr::Block(b) = &mut *a.body { if let Some(p) = self.probe() { b.block.stmts.insert(0, p); } }
     }
@@ -418,7 +436,14 @@ impl<'a> Gen<'a> {
                 mk.visit_block_mut(block);
                 let has_ret = !matches!(sig.output, syn::ReturnType::Default);
                 if has_ret { mk.mark_block_tail(block); }
-                else if let Some(p) = mk.probe() { block.stmts.push(p); }
+                else {
+                    // unit function: the `return` template (and the at-return postcondition asserts) go at the end of the body
+                    if !spec.ret_hint.trim().is_empty() || !spec.ensures.is_empty() {
+                        let falls_through = !matches!(block.stmts.last(), Some(Stmt::Expr(e, _)) if is_diverging_tail(e));
+                        if falls_through { mk.return_points += 1; let m = mk.marker(&spec.ret_hint.clone(), vec!["()".to_string()], "return"); block.stmts.push(m); }
+                    }
+                    if let Some(p) = mk.probe() { block.stmts.push(p); }
+                }
                 if let Some(p) = mk.probe() { block.stmts.insert(0, p); }
                 self.hint_base = mk.hint_n;
                 fo.loops = mk.loop_n; fo.return_points = mk.return_points; fo.probes = mk.fn_probes.clone();
